@@ -3,7 +3,7 @@ arithmetic and ordering jedi adds around importlib)."""
 from pyvc.api import *
 from pyvc.spec import callee_of
 
-SPEC_IMPORTS = ['contracts.common']
+SPEC_IMPORTS = ['contracts.common', 'contracts.c20']
 SPEC_FUNCTIONS = ['path_join_parts', 'resolve_name_spec', 'gcd_import_spec']
 
 
@@ -729,3 +729,10 @@ NOT_DECIDED = [
 ]
 TRUSTED = ['os.path.sep == "/" (POSIX)', 'sep.join(s.split(sep)) == s (str contract)',
            're.sub("-stubs$", "", s) is a pure function of s']
+
+
+def dynamic_contracts(repo):
+    """which file an import resolves to depends on the effective search path: its composition and the fact that
+    computing it changes neither the project's configuration nor the memoised path itself (contracts shared with C20)"""
+    from contracts import c20
+    return [c20._get_sys_path, c20._swm]
